@@ -491,7 +491,7 @@ impl SimMpd {
     }
 
     /// Execute one command; `index` is its position in a list.
-    fn exec_cmd(&mut self, line: &[u8], index: u64, kind: &mut UnitKind, ids: &mut Vec<u64>, delay: &mut u32) -> Result<CmdOut, CErr> {
+    fn exec_cmd(&mut self, line: &[u8], index: u64, kind: &mut UnitKind, ids: &mut Vec<u64>, delay: &mut u32, partial: &mut Vec<u8>) -> Result<CmdOut, CErr> {
         let (word, args) = match tokenize(line) {
             Ok(t) => t,
             Err(e) => {
@@ -534,6 +534,9 @@ impl SimMpd {
                 let shape = self.plan.shape(id);
                 *delay = (*delay).max(shape.delay_ms);
                 if let Some(code) = shape.fail {
+                    for k in 0..shape.partial_fields {
+                        partial.extend_from_slice(format!("partial: {}:{}\n", id, k).as_bytes());
+                    }
                     return Err(ack(code, index, "req", &format!("failed {}", id)));
                 }
                 let (frame, bytes, payloads) =
@@ -633,6 +636,11 @@ impl SimMpd {
                     }
                 };
                 let size = data.len() as u64;
+                if let Some((threshold, code)) = pic.later_error {
+                    if offset > 0 && offset >= threshold && offset < size {
+                        return Err(ack(code, index, &word, "forced error on a later chunk"));
+                    }
+                }
                 if offset > size {
                     return Err(ack(2, index, &word, "Bad file offset"));
                 }
@@ -679,7 +687,8 @@ impl SimMpd {
         let mut reply = CResp::default();
         for (i, line) in lines.iter().enumerate() {
             let mut k = UnitKind::Unknown;
-            match self.exec_cmd(line, i as u64, &mut k, &mut ids, &mut delay) {
+            let mut partial = Vec::new();
+            match self.exec_cmd(line, i as u64, &mut k, &mut ids, &mut delay, &mut partial) {
                 Ok(out) => {
                     let base = bytes.len();
                     bytes.extend_from_slice(&out.bytes);
@@ -690,6 +699,8 @@ impl SimMpd {
                     }
                 }
                 Err(e) => {
+                    // output the failing command produced before it failed, then the error
+                    bytes.extend_from_slice(&partial);
                     encode_ack(&e, &mut bytes);
                     reply.error = Some(e);
                     if i == 0 || !is_list {
